@@ -81,6 +81,7 @@ func (fs *fs) Walk(ctx context.Context, target string, fn gofs.WalkDirFunc) erro
 				return err
 			}
 		}
+		verifAfterWalkEntry(origpath, dirEntry)
 		return nil
 	})
 }
